@@ -3,6 +3,7 @@
 package checks
 
 import (
+	"bytes"
 	"encoding/binary"
 	"fmt"
 	"sync/atomic"
@@ -181,6 +182,52 @@ func checkC10(c *mc.Ctx) {
 		}
 	}
 	c.Ev.AddScenario(mc.Scenario{Name: "chunking and residue", SpaceSize: nsplit, Executed: nsplit, Exhaustive: true, States: nsplit, Trans: nsplit, Bound: "19 message lengths up to 4096: every split point, every 3-way split of the short ones, residue"})
+	// messages with long runs of one byte value (zero-filled areas, 0xff stuffing, repeated sync bytes), alone, behind
+	// a prefix and in front of a suffix, and two runs of different values back to back; from four register values
+	{
+		var nruns int64
+		var msgs [][]byte
+		vals := []byte{0x00, 0xff, 0x47, 0x55, 0xaa, 0x01, 0x80}
+		for _, v := range vals {
+			for l := 1; l <= 600; l++ {
+				for _, pre := range [][]byte{nil, {0xa5}, {0x00, 0x01, 0x02}} {
+					for _, suf := range [][]byte{nil, {0x3c}} {
+						msgs = append(msgs, append(append(append([]byte{}, pre...), bytes.Repeat([]byte{v}, l)...), suf...))
+					}
+				}
+			}
+		}
+		edge := []int{1, 7, 8, 15, 16, 31, 32, 63, 64, 65, 127, 128, 129, 255, 256, 257}
+		for _, a := range vals[:4] {
+			for _, b := range vals[:4] {
+				for _, l1 := range edge {
+					for _, l2 := range edge {
+						msgs = append(msgs, append(bytes.Repeat([]byte{a}, l1), bytes.Repeat([]byte{b}, l2)...))
+					}
+				}
+			}
+		}
+		done := mc.ParFor(int64(len(msgs)), c.OverBudget, func(i int64) {
+			m := msgs[i]
+			for _, st := range []uint32{0xffffffff, 0, 0x04c11db7, 0x80000001} {
+				want := st
+				for _, x := range m {
+					want = ref.CRCStep(want, x)
+				}
+				if got := astits.VerifUpdateCRC32(st, m); got != want {
+					c.Rep.Report("message", map[string]any{"kind": "crc", "message_hex": mc.Hex(m), "state": st, "message": fmt.Sprintf("a message with a run of equal bytes: register %#x after the message, CRC-32/MPEG-2 gives %#x (start %#x)", got, want, st)})
+					return
+				}
+			}
+			if astits.VerifComputeCRC32(m) != ref.CRC(m) {
+				c.Rep.Report("message", map[string]any{"kind": "crc", "message_hex": mc.Hex(m), "message": "checksum differs from CRC-32/MPEG-2"})
+			}
+			c.Ev.Class("long-run-of-equal-bytes", 1)
+		})
+		nruns = done
+		c.Ev.AddScenario(mc.Scenario{Name: "runs of equal bytes", SpaceSize: int64(len(msgs)), Executed: nruns, Exhaustive: nruns == int64(len(msgs)), States: nruns * 4, Trans: nruns * 4,
+			Bound: "7 byte values x run lengths 1..600 x 3 prefixes x 2 suffixes; two runs of 16 edge lengths each over 4 values; from 4 register values"})
+	}
 	c.Ev.Sample(map[string]any{"state": "0xffffffff", "byte": "0x00", "next_state": fmt.Sprintf("%#x", ref.CRCStep(0xffffffff, 0))})
 	_ = bad
 }
